@@ -8,7 +8,9 @@ import (
 	"time"
 
 	"github.com/mimecast/dtail/internal/clients/connectors"
+	chandlers "github.com/mimecast/dtail/internal/clients/handlers"
 	"github.com/mimecast/dtail/internal/config"
+	"github.com/mimecast/dtail/internal/source"
 	"github.com/mimecast/dtail/verif/explore"
 	"github.com/mimecast/dtail/verif/vrt"
 )
@@ -293,13 +295,142 @@ func c07ParamSets(tier string) (ps []c07Params, d int) {
 	return ps, 2
 }
 
+// c07ClientMerge: the CLIENT side of a multi-server session on its own.  The wire streams of two servers reach two
+// real client handlers in transport reads (chunks); every order in which the chunks of the two connections can
+// arrive is enumerated.  The client process has its own configuration, which need not be the servers': a server
+// with a larger MaxLineLength sends records longer than the client's own setting.  Oracle: the output lines are an
+// interleaving of the two servers' lines (the lines each handler prints when it is fed alone), whole and in order.
+func c07ClientMerge(c *Ctx) {
+	if c.Shard != 0 {
+		return
+	}
+	type cfg struct {
+		ClientMaxLineLength int `json:"max_line_length_in_the_client_process"`
+		Long                int `json:"bytes_of_the_long_line"`
+		Chunk               int `json:"transport_read_size"`
+	}
+	for _, k := range []cfg{{8, 3000, 1000}, {1024, 3000, 1000}, {1024, 70000, 32768}, {1024 * 1024, 70000, 32768}, {1024 * 1024, 3000, 700}} {
+		k := k
+		rec := func(host string, n int, text string) string {
+			return fmt.Sprintf("REMOTE|%s|100|%d|f.log|%s\n\xac", host, n, text) // (a line's content ends with its newline)
+		}
+		streamA := rec("srvA", 1, "first") + rec("srvA", 2, strings.Repeat("x", k.Long)) + rec("srvA", 3, "last")
+		streamB := rec("srvB", 1, "b one") + rec("srvB", 2, "b two") + rec("srvB", 3, "b three")
+		chunks := func(s string, size int) (out []string) {
+			for len(s) > size {
+				out = append(out, s[:size])
+				s = s[size:]
+			}
+			return append(out, s)
+		}
+		ca := chunks(streamA, k.Chunk)
+		cb := []string{rec("srvB", 1, "b one"), rec("srvB", 2, "b two"), rec("srvB", 3, "b three")} // one record per read
+		_ = streamB
+		// all merges of the two chunk sequences, as bit strings (true = next chunk of A)
+		var orders [][]bool
+		var gen func(cur []bool, a, b int)
+		gen = func(cur []bool, a, b int) {
+			if a == len(ca) && b == len(cb) {
+				orders = append(orders, append([]bool{}, cur...))
+				return
+			}
+			if a < len(ca) {
+				gen(append(cur, true), a+1, b)
+			}
+			if b < len(cb) {
+				gen(append(cur, false), a, b+1)
+			}
+		}
+		gen(nil, 0, 0)
+		res := vrt.Run(vrt.Config{MaxSteps: 1 << 40, Horizon: 100000 * time.Hour}, func() {
+			args := DefaultArgs()
+			args.Logger = "stdout"
+			args.LogLevel = "info"
+			args.NoColor = true
+			StartEnv(source.Client, &args, func() { config.Server.MaxLineLength = k.ClientMaxLineLength })
+			feed := func(order []bool) []string {
+				vrt.Out().Buf.Reset()
+				hA, hB := chandlers.NewClientHandler("srvA"), chandlers.NewClientHandler("srvB")
+				a, b := 0, 0
+				for _, isA := range order {
+					if isA {
+						hA.Write([]byte(ca[a]))
+						a++
+					} else {
+						hB.Write([]byte(cb[b]))
+						b++
+					}
+				}
+				vrt.Sleep("settle", time.Second)
+				hA.Shutdown()
+				hB.Shutdown()
+				out := vrt.Out().Buf.String()
+				if out == "" {
+					return nil
+				}
+				return strings.Split(strings.TrimSuffix(out, "\n"), "\n")
+			}
+			// the two servers one after the other: what each prints on its own
+			var onlyA, onlyB []bool
+			for range ca {
+				onlyA = append(onlyA, true)
+			}
+			for range cb {
+				onlyB = append(onlyB, false)
+			}
+			seq := feed(append(append([]bool{}, onlyA...), onlyB...))
+			var wantA, wantB []string
+			for _, l := range seq {
+				if strings.Contains(l, "|srvA|") {
+					wantA = append(wantA, l)
+				} else {
+					wantB = append(wantB, l)
+				}
+			}
+			if len(wantA) != 3 || len(wantB) != 3 {
+				c.Violation("client-prints-records-in-pieces", fmt.Sprintf("client MaxLineLength %d: server A sends 3 records (one of %d bytes) in reads of %d bytes, then server B sends 3: the client printed %d lines for A and %d for B, want 3 and 3", k.ClientMaxLineLength, k.Long, k.Chunk, len(wantA), len(wantB)), k)
+				return
+			}
+			for _, order := range orders {
+				got := feed(order)
+				c.Count(fmt.Sprintf("merge|%v|%v", k, order))
+				ia, ib := 0, 0
+				bad := ""
+				for _, l := range got {
+					switch {
+					case ia < len(wantA) && l == wantA[ia]:
+						ia++
+					case ib < len(wantB) && l == wantB[ib]:
+						ib++
+					default:
+						bad = fmt.Sprintf("output line %s is not the next whole line of either server", trunc(l))
+					}
+					if bad != "" {
+						break
+					}
+				}
+				if bad == "" && (ia != len(wantA) || ib != len(wantB)) {
+					bad = fmt.Sprintf("%d of 3 lines of server A and %d of 3 of server B were printed", ia, ib)
+				}
+				if bad != "" {
+					c.Violation("client-output-not-an-interleaving-of-whole-lines", fmt.Sprintf("client process with MaxLineLength %d; server A sends 3 records (the second %d bytes long) in transport reads of %d bytes, server B 3 short records; arrival order of the reads (A=true) %v: %s", k.ClientMaxLineLength, k.Long, k.Chunk, order, bad), k)
+					return
+				}
+			}
+		})
+		if res.Fail != nil {
+			c.Violation("panic", res.Fail.Error(), k)
+		}
+	}
+}
+
 func init() {
 	Register(&Check{
 		ID:    "C07",
 		Level: "model_checking",
 		Rule: "stateless exploration of all schedules within a deviation bound (quick 1, thorough 2) of a non-plain, no-colour dcat session over 1-3 in-process servers (each its own Serverless connector, ServerHandler and host name) " +
 			"x 1-2 files (distinct basenames, or the same basename in different directories through one glob, also spelled with '//', '/./' and 'x/../') x 1-2 lines, plus lines of 40000/70000 bytes that span several transport reads; the stdout logger's lock operations are branching points; " +
-			"oracle: every stdout line is exactly one REMOTE|host|perc|n|id|text record whose text is line n of source (host,id), per source n = 1,2,.. without gap or repeat, every line present; plus the real TailFile reader with a source faster than its consumer (queue capacity 1/4/100, histories of up to 450 lines, lines dropped at a full queue): every delivered line carries its own running number; distinct = distinct (scenario, outcome) pairs",
+			"oracle: every stdout line is exactly one REMOTE|host|perc|n|id|text record whose text is line n of source (host,id), per source n = 1,2,.. without gap or repeat, every line present; plus the real TailFile reader with a source faster than its consumer (queue capacity 1/4/100, histories of up to 450 lines, lines dropped at a full queue): every delivered line carries its own running number; plus the client side alone: the wire streams of two servers (one sends a record of 3000 / 70000 bytes) reach two real client handlers in transport reads of 700 / 1000 / 32768 bytes, in EVERY arrival order of the reads, in a client process whose own MaxLineLength setting is 8, 1024 or the default (a client's configuration is not the servers'): the output is an interleaving of the whole lines of both; distinct = distinct (scenario, outcome) pairs",
 		Assumptions: []string{
 			"code between two synchronisation operations is atomic (data-race freedom; checked by the free-running -race pass)",
 			"the servers run in the client's process through the serverless connector (the SSH transport is a byte stream with arbitrary segmentation; segmentation below 32 KiB is covered by the long-line scenarios)",
@@ -321,6 +452,7 @@ func init() {
 				c.Explore(c07Scenario(p), d, c07Sig)
 				c.Sample(map[string]interface{}{"scenario": p.String(), "deviation_bound": d})
 			}
+			c07ClientMerge(c)
 			// a followed source that is faster than the client: lines are dropped at a full queue; every line that IS
 			// delivered must still carry its own running number (the follow scenarios of C04 with their label oracle)
 			ps4, _ := c04ParamSets(c.Tier)
